@@ -23,7 +23,7 @@ import numpy as np
 import pandas as pd
 
 import common
-from common import ts, ts_in, secs, f2b
+from common import ts, ts_in, entry_ts, secs, f2b
 
 from qstrader import settings
 settings.set_print_events(False)
@@ -131,7 +131,7 @@ class RecordingHandler(object):
 def make_universe(u):
     if 'static' in u:
         return StaticUniverse(list(u['static']))
-    return DynamicUniverse(collections.OrderedDict((a, None if e is None else ts_in(e, u.get('entry_tz'))) for a, e in u['dynamic']))
+    return DynamicUniverse(collections.OrderedDict((a, entry_ts(e, u.get('entry_tz'), u.get('nat'))) for a, e in u['dynamic']))
 
 
 def fnum(x):
